@@ -331,6 +331,9 @@ class ValueSet:
                         different = True
                 else:
                     different = True
+            if any(region not in other.regions for region in self.regions) or len(other.regions) > 1:
+                # self may point into a region that other never points into, or the two into different common regions
+                different = True
 
             if same and not different:
                 return TrueResult()
